@@ -444,3 +444,42 @@ Proof.
       apply write_rspfile_dirs_kept in H. destruct cwd as [|x cw]; [reflexivity|]. simpl in *. now apply H.
     + intros H; inversion H; subst. now split.
 Qed.
+
+(* ---------------------------------------------------------------------------------------- *)
+(* a failure names its cause (audit W2): some regular file sits at a prefix of some output's directory *)
+
+Definition file_at (fs : fstree) (q : path) : bool :=
+  match node_at fs q with Some (KFile _) => true | _ => false end.
+
+Definition path_blocked (fs : fstree) (cwd : path) (d : lpath) : bool :=
+  existsb (fun i => file_at fs (loc_prefix cwd d i)) (seq 0 (S (length (lp_comps d)))).
+
+Definition out_blocked (fs : fstree) (cwd : path) (o : bytes) : bool :=
+  match lp_parent (path_new o) with Some d => path_blocked fs cwd d | None => false end.
+
+Lemma not_blocked_clear fs cwd d : nodots (lp_comps d) -> path_blocked fs cwd d = false -> clear_path fs cwd d.
+Proof.
+  intros ND B. split; [exact ND|]. intros i c Hi H.
+  unfold path_blocked in B. rewrite <- Bool.not_true_iff_false in B. apply B.
+  apply existsb_exists. exists i. split; [apply in_seq; lia|]. unfold file_at. now rewrite H.
+Qed.
+
+Theorem create_parent_dirs_failure_names_a_file fs cwd outs e fs' :
+  fs_wf fs -> node_at fs cwd = Some KDir ->
+  (forall o d, In o outs -> lp_parent (path_new o) = Some d -> nodots (lp_comps d)) ->
+  create_parent_dirs fs cwd outs = (Some e, fs') ->
+  exists o d i c, In o outs /\ lp_parent (path_new o) = Some d /\ i <= length (lp_comps d) /\
+                  node_at fs (loc_prefix cwd d i) = Some (KFile c).
+Proof.
+  intros W C ND H. destruct (existsb (out_blocked fs cwd) outs) eqn:B.
+  - apply existsb_exists in B as (o & I & OB). unfold out_blocked in OB.
+    destruct (lp_parent (path_new o)) as [d|] eqn:Pp; [|discriminate].
+    unfold path_blocked in OB. apply existsb_exists in OB as (i & Ii & F).
+    apply in_seq in Ii. unfold file_at in F.
+    destruct (node_at fs (loc_prefix cwd d i)) as [[|c]|] eqn:N; try discriminate.
+    exists o, d, i, c. repeat split; auto. lia.
+  - exfalso. destruct (create_parent_dirs_succeeds fs cwd outs W C) as [fs2 E]; [|congruence].
+    intros o d I Pp. apply not_blocked_clear; [eapply ND; eauto|].
+    rewrite <- Bool.not_true_iff_false in B. rewrite <- Bool.not_true_iff_false. intros PB. apply B.
+    apply existsb_exists. exists o. split; [exact I|]. unfold out_blocked. now rewrite Pp.
+Qed.
